@@ -52,7 +52,7 @@ var e2DumpOnce sync.Once
 const (
 	e2NoopN       = 64
 	e2NoopRound   = uint32(0x7fff0000)
-	e2CaseTimeout = 20 * time.Second // watchdog only; cases take milliseconds
+	e2CaseTimeout = 60 * time.Second // watchdog only; cases take milliseconds
 	e2DeafProbe   = 250 * time.Millisecond
 )
 
@@ -176,15 +176,15 @@ type e2Inst struct {
 	actionCh chan e2Action
 	readers  sync.WaitGroup
 
-	cur         e2HR
-	entrances   int
+	cur             e2HR
+	entrances       int
 	replay          bool // the last entrance was answered with a committed header
 	replayListening bool // ... and the machine was seen to read round views nevertheless
 	probePending    bool // whether the machine reads round views is not known yet
 	everLive        bool // some entrance of this instance was answered with a round view
 	deaf            bool // does not read the round view channel any more
-	hc          chan<- struct{}
-	stopped     bool
+	hc              chan<- struct{}
+	stopped         bool
 }
 
 type e2Cfg struct {
@@ -436,14 +436,14 @@ func (w *e2World) alive() bool {
 // ----------------------------------------------------------------- pump ----
 
 type e2Op struct {
-	view      *tmeil.StateMachineRoundView
-	viewID    int
-	bd        *tmelink.BlockDataArrival
-	sentinel  *tsi.ConsiderProposedBlocksRequest
-	wait      <-chan string
-	until     func() bool
-	avoid     *e2HR // withdraw the view if the machine enters this round while it is on offer
-	only      *e2HR // withdraw the view if the machine leaves this round while it is on offer
+	view     *tmeil.StateMachineRoundView
+	viewID   int
+	bd       *tmelink.BlockDataArrival
+	sentinel *tsi.ConsiderProposedBlocksRequest
+	wait     <-chan string
+	until    func() bool
+	avoid    *e2HR // withdraw the view if the machine enters this round while it is on offer
+	only     *e2HR // withdraw the view if the machine leaves this round while it is on offer
 }
 
 // do performs one blocking operation towards the machine while servicing
@@ -1069,6 +1069,14 @@ func (w *e2World) drawScript(rd *e2Round) *e2Script {
 		sc.holdKind = []string{"consider", "choose", "decide", "decide"}[w.rng.IntN(4)]
 		sc.holdSpan = 1 + w.rng.IntN(4)
 	}
+	if w.rng.IntN(3) == 0 {
+		sc.dupPrevote = true
+		sc.dupRule = e2Rule{mode: e2RulePH, idx: 1 + w.rng.IntN(3)}
+		if w.rng.IntN(3) == 0 {
+			sc.dupRule = e2Rule{mode: e2RuleNil}
+		}
+	}
+	sc.propose2 = w.rng.IntN(2) == 0
 	if w.cfg.participate && w.rng.IntN(3) == 0 {
 		sc.propose = true
 		sc.proposeAt = w.rng.IntN(3)
@@ -1153,6 +1161,18 @@ func (w *e2World) onAction(a e2Action) {
 		return
 	}
 	w.count("action." + a.kind)
+	if a.ent == w.inst.cur {
+		w.strat.mu.Lock()
+		if sc := w.strat.cur; sc != nil && sc.inst == w.inst.n {
+			switch a.kind {
+			case "prevote":
+				sc.pvEffectSeen = true
+			case "proposal":
+				sc.proposalEffectSeen = true
+			}
+		}
+		w.strat.mu.Unlock()
+	}
 	switch a.kind {
 	case "proposal":
 		if rd.own == nil && a.ph != nil {
@@ -1595,6 +1615,11 @@ func (w *e2World) evPropose() bool {
 		sc.proposed = true
 		out = sc.proposalOut
 		p = tmconsensus.Proposal{DataID: sc.dataID}
+	} else if sc != nil && sc.propose && sc.proposed && sc.propose2 && !sc.proposed2 && sc.proposalEffectSeen && sc.proposalOut != nil {
+		// a duplicate: a second, different proposal after the first was emitted
+		sc.proposed2 = true
+		out = sc.proposalOut
+		p = tmconsensus.Proposal{DataID: sc.dataID + "_second"}
 	}
 	s.mu.Unlock()
 	if out == nil {
